@@ -675,3 +675,480 @@ Proof.
            | context [match qdenom ?c with _ => _ end] => destruct (qdenom c) eqn:?
            end; try discriminate; inversion H; subst; simpl; auto.
 Qed.
+
+(* ------------------------------------------------------------------ *)
+(* which axis arguments are accepted                                   *)
+(* ------------------------------------------------------------------ *)
+Lemma apply_lead_err m rec ro q : apply_lead m rec ro q = RErr <-> m = None.
+Proof. unfold apply_lead. destruct m; split; intro H; try discriminate; reflexivity. Qed.
+
+Lemma np_swapaxes_none a b s : np_swapaxes a b s = None <->
+  ~ ((- Z.of_nat (length s) <= a < Z.of_nat (length s))%Z /\
+     (- Z.of_nat (length s) <= b < Z.of_nat (length s))%Z).
+Proof.
+  unfold np_swapaxes.
+  destruct (norm_axis (length s) a) as [a'|] eqn:Ea; destruct (norm_axis (length s) b) as [b'|] eqn:Eb.
+  - apply norm_axis_spec in Ea. apply norm_axis_spec in Eb. split; [discriminate | intro H; exfalso; apply H; tauto].
+  - apply norm_axis_none in Eb. split; [intros _ [_ H]; lia | reflexivity].
+  - apply norm_axis_none in Ea. split; [intros _ [H _]; lia | reflexivity].
+  - apply norm_axis_none in Ea. split; [intros _ [H _]; lia | reflexivity].
+Qed.
+
+Lemma np_rollaxis_none a st s : np_rollaxis a st s = None <->
+  ~ ((- Z.of_nat (length s) <= a < Z.of_nat (length s))%Z /\
+     (- Z.of_nat (length s) <= st <= Z.of_nat (length s))%Z).
+Proof.
+  unfold np_rollaxis.
+  destruct (norm_axis (length s) a) as [a'|] eqn:Ea.
+  - apply norm_axis_spec in Ea. destruct Ea as [Ha _]. unfold roll_start.
+    destruct (Z.ltb_spec st 0) as [Hs|Hs];
+      match goal with |- context [Z.leb 0 ?x && Z.leb ?y ?z] =>
+        destruct (Z.leb_spec 0 x) as [L1|L1]; destruct (Z.leb_spec y z) as [L2|L2] end; simpl;
+      split; intro H; try discriminate; try reflexivity;
+      try (exfalso; apply H; split; [exact Ha | lia]); try (intros [_ Hst]; lia).
+  - apply norm_axis_none in Ea. split; [intros _ [H _]; lia | reflexivity].
+Qed.
+
+Lemma np_moveaxis1_none a b s : np_moveaxis [a] [b] s = None <->
+  ~ ((- Z.of_nat (length s) <= a < Z.of_nat (length s))%Z /\
+     (- Z.of_nat (length s) <= b < Z.of_nat (length s))%Z).
+Proof.
+  unfold np_moveaxis. cbn [norm_axes].
+  destruct (norm_axis (length s) a) as [a'|] eqn:Ea; destruct (norm_axis (length s) b) as [b'|] eqn:Eb; simpl.
+  - apply norm_axis_spec in Ea. apply norm_axis_spec in Eb. split; [discriminate | intro H; exfalso; apply H; tauto].
+  - apply norm_axis_none in Eb. split; [intros _ [_ H]; lia | reflexivity].
+  - apply norm_axis_none in Ea. split; [intros _ [H _]; lia | reflexivity].
+  - apply norm_axis_none in Ea. split; [intros _ [H _]; lia | reflexivity].
+Qed.
+
+Lemma eff_rank_spec n rank R : eff_rank n rank = Some R -> n <= R /\ 1 <= R.
+Proof.
+  unfold eff_rank. destruct (Nat.eqb_spec rank 0) as [E|E].
+  - rewrite Nat.ltb_irrefl. destruct (Nat.eqb_spec n 0) as [E0|E0]; intro HR; inversion HR; lia.
+  - destruct (Nat.ltb_spec rank n) as [L|L]; [discriminate|].
+    destruct (Nat.eqb_spec rank 0) as [E0|E0]; intro HR; inversion HR; lia.
+Qed.
+
+Lemma eff_rank_none n rank : eff_rank n rank = None <-> (rank <> 0 /\ rank < n).
+Proof.
+  unfold eff_rank. destruct (Nat.eqb_spec rank 0) as [E|E].
+  - rewrite Nat.ltb_irrefl. split; [discriminate | lia].
+  - destruct (Nat.ltb_spec rank n) as [L|L]; split; intro HR; try discriminate; try lia; reflexivity.
+Qed.
+
+Lemma with_rank_none f rank lead R : eff_rank (length lead) rank = Some R ->
+  (with_rank f rank lead = None <-> f (repeat 1 (R - length lead) ++ lead) = None).
+Proof.
+  unfold with_rank. intros ->. destruct (f (repeat 1 (R - length lead) ++ lead)).
+  - destruct lead; split; discriminate.
+  - split; reflexivity.
+Qed.
+
+Lemma padded_length R lead : length lead <= R -> length (repeat 1 (R - length lead) ++ lead) = R.
+Proof. intro H. rewrite app_length, repeat_length. lia. Qed.
+
+Theorem swap_axes_legal a b rec q :
+  run_op (OSwapAxes a b rec) q = RErr <->
+  ~ ((- Z.of_nat (length (qlead (qcore q))) <= a < Z.of_nat (length (qlead (qcore q))))%Z /\
+     (- Z.of_nat (length (qlead (qcore q))) <= b < Z.of_nat (length (qlead (qcore q))))%Z).
+Proof. cbn [run_op]. rewrite apply_lead_err. apply np_swapaxes_none. Qed.
+
+Theorem roll_axis_legal a st rank rec q R :
+  eff_rank (length (qlead (qcore q))) rank = Some R ->
+  (run_op (ORollAxis a st rank rec) q = RErr <->
+   ~ ((- Z.of_nat R <= a < Z.of_nat R)%Z /\ (- Z.of_nat R <= st <= Z.of_nat R)%Z)).
+Proof.
+  intro HR. cbn [run_op]. rewrite apply_lead_err, (with_rank_none _ _ _ _ HR), np_rollaxis_none.
+  rewrite padded_length by (apply (eff_rank_spec _ _ _ HR)). reflexivity.
+Qed.
+
+Theorem move_axis_legal a b rank rec q R :
+  eff_rank (length (qlead (qcore q))) rank = Some R ->
+  (run_op (OMoveAxis [a] [b] rank rec) q = RErr <->
+   ~ ((- Z.of_nat R <= a < Z.of_nat R)%Z /\ (- Z.of_nat R <= b < Z.of_nat R)%Z)).
+Proof.
+  intro HR. cbn [run_op]. rewrite apply_lead_err, (with_rank_none _ _ _ _ HR), np_moveaxis1_none.
+  rewrite padded_length by (apply (eff_rank_spec _ _ _ HR)). reflexivity.
+Qed.
+
+Theorem rank_too_small_rejected o q :
+  match o with
+  | ORollAxis _ _ rank _ | OMoveAxis _ _ rank _ =>
+      rank <> 0 /\ rank < length (qlead (qcore q))
+  | _ => False
+  end -> run_op o q = RErr.
+Proof.
+  destruct o; try contradiction; intro H; apply eff_rank_none in H; cbn [run_op];
+    apply apply_lead_err; unfold with_rank; rewrite H; reflexivity.
+Qed.
+
+(* without rank= the index map is NumPy's own, applied to the leading shape *)
+Theorem plain_rank_is_numpy f lead : lead <> [] ->
+  match f lead, with_rank f 0 lead with
+  | None, None => True
+  | Some m, Some m' => im_out m' = im_out m /\ forall i, im_src m' i = im_src m i
+  | _, _ => False
+  end.
+Proof.
+  intro H. unfold with_rank, eff_rank. simpl. rewrite Nat.ltb_irrefl.
+  destruct lead as [|x l]; [contradiction|]. cbn [length Nat.eqb]. rewrite Nat.sub_diag. simpl.
+  destruct (f (x :: l)); simpl; auto.
+Qed.
+
+(* ------------------------------------------------------------------ *)
+(* inverse pairs                                                       *)
+(* ------------------------------------------------------------------ *)
+Definition q0_eq_in (a b : q0) : Prop :=
+  qlead a = qlead b /\ qnumer a = qnumer b /\ qdenom a = qdenom b /\
+  (forall i, inb (qfull a) i = true -> qval a i = qval b i) /\
+  (forall r, inb (qlead a) r = true -> qmask a r = qmask b r).
+
+Lemma inb_app_split s1 : forall s2 i, inb (s1 ++ s2) i = true ->
+  inb s1 (firstn (length s1) i) = true /\ inb s2 (skipn (length s1) i) = true.
+Proof.
+  induction s1 as [|n s1 IH]; intros s2 i H; simpl in *.
+  - split; [reflexivity | exact H].
+  - destruct i as [|x i]; [discriminate|]. apply andb_true_iff in H. destruct H as [Hx Hi].
+    destruct (IH s2 i Hi) as [H1 H2]. simpl. rewrite Hx, H1. split; [reflexivity | exact H2].
+Qed.
+
+Lemma lead_map_inverse m1 m2 x :
+  im_out m2 = qlead x ->
+  (forall r, inb (im_out m2) r = true ->
+             length (im_src m2 r) = length (im_out m1) /\ im_src m1 (im_src m2 r) = r) ->
+  q0_eq_in (lead_map m2 (lead_map m1 x)) x.
+Proof.
+  intros Ho Hinv. unfold q0_eq_in, lead_map, qfull; simpl.
+  repeat split; try reflexivity; try exact Ho.
+  - intros i Hi. apply inb_app_split in Hi. destruct Hi as [Hr _].
+    destruct (Hinv _ Hr) as [Hl Hs]. rewrite <- Hl.
+    rewrite firstn_app_exact, skipn_app_exact, Hs, firstn_skipn. reflexivity.
+  - intros r Hr. destruct (Hinv _ Hr) as [_ Hs]. rewrite Hs. reflexivity.
+Qed.
+
+(* swap_axes twice *)
+Lemma swapP_nth a b n k : k < n -> nth k (swapP a b n) 0 = swapf a b k.
+Proof.
+  intro H. unfold swapP. rewrite (nth_map_lt _ (seq 0 n) k 0 0) by (rewrite seq_length; exact H).
+  rewrite seq_nth by exact H. reflexivity.
+Qed.
+
+Lemma swapP_inv a b n : a < n -> b < n -> inv (swapP a b n) = swapP a b n.
+Proof.
+  intros Ha Hb. assert (Hp := swapP_perm a b n Ha Hb). destruct Hp as (ND & Hl & Hin).
+  unfold inv. rewrite Hl. unfold swapP at 2. apply map_ext_in. intros m Hm. apply in_seq in Hm.
+  assert (Hs : swapf a b m < n) by (apply swapf_lt; lia).
+  change (pos m (swapP a b n) = swapf a b m).
+  assert (E : nth (swapf a b m) (swapP a b n) 0 = m)
+    by (rewrite swapP_nth by exact Hs; apply swapf_invol).
+  rewrite <- E at 1. apply pos_nth; [exact ND | rewrite Hl; exact Hs].
+Qed.
+
+Theorem swap_axes_twice a b s m1 x : qlead x = s -> np_swapaxes a b s = Some m1 ->
+  exists m2, np_swapaxes a b (im_out m1) = Some m2 /\ q0_eq_in (lead_map m2 (lead_map m1 x)) x.
+Proof.
+  intros Hx H. unfold np_swapaxes in *.
+  destruct (norm_axis (length s) a) as [a'|] eqn:Ea; [|discriminate].
+  destruct (norm_axis (length s) b) as [b'|] eqn:Eb; [|discriminate].
+  inversion H; subst m1; clear H. cbn [im_out np_transpose].
+  assert (Hlen : length (gather (swapP a' b' (length s)) s) = length s)
+    by (rewrite gather_length; unfold swapP; rewrite map_length, seq_length; reflexivity).
+  rewrite Hlen, Ea, Eb.
+  eexists. split; [reflexivity|].
+  assert (Ha := norm_axis_lt _ _ _ Ea). assert (Hb := norm_axis_lt _ _ _ Eb).
+  assert (Hp := swapP_perm a' b' (length s) Ha Hb).
+  set (p := swapP a' b' (length s)) in *.
+  assert (Hinv : inv p = p) by (apply swapP_inv; assumption).
+  assert (Hpl : length p = length s) by (destruct Hp as (_ & Hl & _); exact Hl).
+  apply lead_map_inverse.
+  - cbn [im_out np_transpose]. rewrite Hx.
+    rewrite <- Hinv at 1. apply (transpose_roundtrip2 p (length s) s Hp eq_refl).
+  - cbn [im_out im_src np_transpose]. intros r Hr. apply inb_length in Hr.
+    rewrite !gather_length in Hr. rewrite !gather_length, inv_length. split; [reflexivity|].
+    rewrite Hinv at 2. apply (transpose_roundtrip2 p (length s) r Hp). lia.
+Qed.
+
+(* reshape to any legal target and back to the original shape *)
+Lemma resolve_shape_nat sz s : size s = sz -> resolve_shape sz (map Z.of_nat s) = Some s.
+Proof.
+  intro H. rewrite resolve_shape_unfold.
+  assert (Hc : cntu (map Z.of_nat s) = 0).
+  { unfold cntu. clear H. induction s as [|n s IH]; [reflexivity|]. cbn [map filter].
+    unfold unknownZ at 1. destruct (Z.ltb_spec (Z.of_nat n) 0); [lia | exact IH]. }
+  rewrite Hc.
+  assert (Hk : prodk (map Z.of_nat s) = size s).
+  { clear H Hc. induction s as [|n s IH]; [reflexivity|]. cbn [map prodk fold_right]. fold (prodk (map Z.of_nat s)).
+    unfold unknownZ. destruct (Z.ltb_spec (Z.of_nat n) 0); [lia|]. rewrite IH, Nat2Z.id. reflexivity. }
+  rewrite Hk, H, Nat.eqb_refl. f_equal.
+  rewrite map_map. rewrite <- (map_id s) at 2. apply map_ext. intro n. apply Nat2Z.id.
+Qed.
+
+Theorem reshape_and_back t s m1 x : qlead x = s -> np_reshape t s = Some m1 ->
+  exists m2, np_reshape (map Z.of_nat s) (im_out m1) = Some m2 /\
+             q0_eq_in (lead_map m2 (lead_map m1 x)) x.
+Proof.
+  intros Hx H. unfold np_reshape in *.
+  destruct (resolve_shape (size s) t) as [o|] eqn:E; [|discriminate].
+  inversion H; subst m1; clear H. cbn [im_out reshape_map].
+  assert (Hsz : size o = size s) by (eapply resolve_shape_size; exact E).
+  rewrite (resolve_shape_nat (size o) s) by (symmetry; exact Hsz).
+  eexists. split; [reflexivity|].
+  apply lead_map_inverse.
+  - cbn [im_out reshape_map]. symmetry. exact Hx.
+  - cbn [im_out im_src reshape_map]. intros r Hr. rewrite unravel_length. split; [reflexivity|].
+    assert (Hlt := ravel_lt s r Hr).
+    rewrite ravel_unravel by lia. apply unravel_ravel. exact Hr.
+Qed.
+
+(* split_items after join_items restores numerator and denominator; same values and mask *)
+Theorem split_after_join a :
+  qnumer (split_map (length (qnumer a)) (join_map a)) = qnumer a /\
+  qdenom (split_map (length (qnumer a)) (join_map a)) = qdenom a /\
+  qlead (split_map (length (qnumer a)) (join_map a)) = qlead a /\
+  (forall i, qval (split_map (length (qnumer a)) (join_map a)) i = qval a i) /\
+  (forall r, qmask (split_map (length (qnumer a)) (join_map a)) r = qmask a r).
+Proof.
+  unfold split_map, join_map; simpl. rewrite app_nil_r.
+  rewrite firstn_app_exact, skipn_app_exact. repeat split; reflexivity.
+Qed.
+
+(* swap_items twice *)
+Theorem swap_items_twice a r n d :
+  length r = length (qlead a) -> length n = length (qnumer a) -> length d = length (qdenom a) ->
+  qval (swap_items_map (swap_items_map a)) (r ++ n ++ d) = qval a (r ++ n ++ d) /\
+  qnumer (swap_items_map (swap_items_map a)) = qnumer a /\
+  qdenom (swap_items_map (swap_items_map a)) = qdenom a /\
+  (forall k, qmask (swap_items_map (swap_items_map a)) k = qmask a k).
+Proof.
+  intros Hr Hn Hd. unfold swap_items_map; simpl. repeat split; try reflexivity.
+  rewrite <- Hr, <- Hn, <- Hd.
+  rewrite firstn_app_exact, skipn_add_app, skipn_app_exact, firstn_app_exact.
+  rewrite firstn_app_exact, skipn_add_app, skipn_app_exact, firstn_app_exact. reflexivity.
+Qed.
+
+(* a single swap_items puts the denominator axes in front of the numerator axes *)
+Theorem swap_items_relabel a r n d :
+  length r = length (qlead a) -> length d = length (qdenom a) ->
+  qval (swap_items_map a) (r ++ d ++ n) = qval a (r ++ n ++ d).
+Proof.
+  intros Hr Hd. unfold swap_items_map; simpl. rewrite <- Hr, <- Hd.
+  rewrite firstn_app_exact, skipn_add_app, skipn_app_exact, firstn_app_exact. reflexivity.
+Qed.
+
+(* two axis permutations that undo each other (p1[p2[k]] = k) give inverse relabelings *)
+Lemma perm_pair_inv p1 p2 n : is_perm p1 n -> is_perm p2 n -> gather p2 p1 = seq 0 n ->
+  inv p2 = p1 /\ inv p1 = p2.
+Proof.
+  intros (ND1 & L1 & I1) (ND2 & L2 & I2) G.
+  assert (Hk : forall k, k < n -> nth (nth k p2 0) p1 0 = k).
+  { intros k Hk. rewrite <- nth_gather by lia. rewrite G. apply seq_nth. exact Hk. }
+  split.
+  - apply nth_ext with (d := 0) (d' := 0); [rewrite inv_length; lia|].
+    intros m Hm. rewrite inv_length, L2 in Hm. unfold inv.
+    rewrite (nth_map_lt _ (seq 0 (length p2)) m 0 0) by (rewrite seq_length; lia).
+    rewrite seq_nth by lia. simpl.
+    assert (Hin : In m p2) by (apply I2; exact Hm).
+    rewrite <- (nth_pos p2 m Hin) at 2. symmetry. apply Hk. rewrite <- L2. apply pos_lt. exact Hin.
+  - apply nth_ext with (d := 0) (d' := 0); [rewrite inv_length; lia|].
+    intros m Hm. rewrite inv_length, L1 in Hm. unfold inv.
+    rewrite (nth_map_lt _ (seq 0 (length p1)) m 0 0) by (rewrite seq_length; lia).
+    rewrite seq_nth by lia. simpl.
+    rewrite <- (Hk m Hm) at 1. apply pos_nth; [exact ND1|].
+    rewrite L1. apply I2. apply nth_In. lia.
+Qed.
+
+Lemma perm_pair_inverse p1 p2 s x : qlead x = s ->
+  is_perm p1 (length s) -> is_perm p2 (length s) -> gather p2 p1 = seq 0 (length s) ->
+  q0_eq_in (lead_map (np_transpose p2 (gather p1 s)) (lead_map (np_transpose p1 s) x)) x.
+Proof.
+  intros Hx H1 H2 G. destruct (perm_pair_inv p1 p2 (length s) H1 H2 G) as [E2 E1].
+  assert (L1 : length p1 = length s) by (destruct H1 as (_ & L & _); exact L).
+  assert (L2 : length p2 = length s) by (destruct H2 as (_ & L & _); exact L).
+  assert (B2 : forall k, In k p2 -> k < length p1).
+  { intros k Hk. rewrite L1. destruct H2 as (_ & _ & I2). apply I2. exact Hk. }
+  apply lead_map_inverse.
+  - cbn [im_out np_transpose]. rewrite gather_gather by exact B2. rewrite G, Hx. apply gather_seq.
+  - cbn [im_out im_src np_transpose]. intros r Hr. apply inb_length in Hr.
+    rewrite !gather_length in Hr. rewrite !gather_length, inv_length. split; [lia|].
+    rewrite E1, E2. rewrite gather_gather by exact B2. rewrite G. rewrite <- L2, <- Hr. apply gather_seq.
+Qed.
+
+Lemma nlist_eqb_eq a : forall b, nlist_eqb a b = true -> a = b.
+Proof.
+  induction a as [|x a IH]; intros [|y b] H; simpl in H; try discriminate; [reflexivity|].
+  apply andb_true_iff in H. destruct H as [H1 H2]. apply Nat.eqb_eq in H1. f_equal; [exact H1 | apply IH; exact H2].
+Qed.
+
+(* B (rank <= 6): moving axis a to b and then b to a; rolling k to the front and back *)
+Definition move_pair_ok (n : nat) : bool :=
+  forallb (fun a => forallb (fun b =>
+    nlist_eqb (gather (moveP [b] [a] n) (moveP [a] [b] n)) (seq 0 n)) (seq 0 n)) (seq 0 n).
+Definition roll_pair_ok (n : nat) : bool :=
+  forallb (fun k => nlist_eqb (gather (rollP 0 k n) (rollP k 0 n)) (seq 0 n)) (seq 0 n).
+
+Lemma pairs_ok_6 : forallb (fun n => move_pair_ok n && roll_pair_ok n) (seq 0 7) = true.
+Proof. vm_compute. reflexivity. Qed.
+
+Lemma move_pair_fact n a b : n <= 6 -> a < n -> b < n ->
+  gather (moveP [b] [a] n) (moveP [a] [b] n) = seq 0 n.
+Proof.
+  intros Hn Ha Hb. assert (H := pairs_ok_6). rewrite forallb_forall in H.
+  assert (Hin : In n (seq 0 7)) by (apply in_seq; lia).
+  specialize (H n Hin). apply andb_true_iff in H. destruct H as [H _].
+  unfold move_pair_ok in H. rewrite forallb_forall in H.
+  assert (Hia : In a (seq 0 n)) by (apply in_seq; lia).
+  specialize (H a Hia). rewrite forallb_forall in H. apply nlist_eqb_eq. apply H. apply in_seq. lia.
+Qed.
+
+Lemma roll_pair_fact n k : n <= 6 -> k < n -> gather (rollP 0 k n) (rollP k 0 n) = seq 0 n.
+Proof.
+  intros Hn Hk. assert (H := pairs_ok_6). rewrite forallb_forall in H.
+  assert (Hin : In n (seq 0 7)) by (apply in_seq; lia).
+  specialize (H n Hin). apply andb_true_iff in H. destruct H as [_ H].
+  unfold roll_pair_ok in H. rewrite forallb_forall in H. apply nlist_eqb_eq. apply H. apply in_seq. lia.
+Qed.
+
+Lemma moveP1_perm a b n : a < n -> is_perm (moveP [a] [b] n) n.
+Proof.
+  intro H. apply moveP_perm; [constructor; [intros [] | constructor] | | reflexivity].
+  intros x [<-|[]]. exact H.
+Qed.
+
+Theorem move_axis_pair_B a b s x : length s <= 6 -> a < length s -> b < length s -> qlead x = s ->
+  q0_eq_in (lead_map (np_transpose (moveP [b] [a] (length s)) (gather (moveP [a] [b] (length s)) s))
+                     (lead_map (np_transpose (moveP [a] [b] (length s)) s) x)) x.
+Proof.
+  intros Hn Ha Hb Hx. apply perm_pair_inverse; [exact Hx | apply moveP1_perm; exact Ha
+    | apply moveP1_perm; exact Hb | apply move_pair_fact; assumption].
+Qed.
+
+Theorem roll_axis_pair_B k s x : length s <= 6 -> k < length s -> qlead x = s ->
+  q0_eq_in (lead_map (np_transpose (rollP 0 k (length s)) (gather (rollP k 0 (length s)) s))
+                     (lead_map (np_transpose (rollP k 0 (length s)) s) x)) x.
+Proof.
+  intros Hn Hk Hx. apply perm_pair_inverse; [exact Hx | apply rollP_perm; exact Hk
+    | apply rollP_perm; lia | apply roll_pair_fact; assumption].
+Qed.
+
+(* the permutations above are the ones NumPy's functions use for those arguments *)
+Lemma norm_axis_nat n k : k < n -> norm_axis n (Z.of_nat k) = Some k.
+Proof.
+  intro H. apply norm_axis_spec. split; [lia|].
+  destruct (Z.ltb_spec (Z.of_nat k) 0); [lia|]. symmetry. apply Nat2Z.id.
+Qed.
+
+Lemma np_moveaxis_nat a b s : a < length s -> b < length s ->
+  np_moveaxis [Z.of_nat a] [Z.of_nat b] s = Some (np_transpose (moveP [a] [b] (length s)) s).
+Proof.
+  intros Ha Hb. unfold np_moveaxis. cbn [norm_axes].
+  rewrite (norm_axis_nat _ _ Ha), (norm_axis_nat _ _ Hb). reflexivity.
+Qed.
+
+Lemma np_rollaxis_front k s : k < length s ->
+  np_rollaxis (Z.of_nat k) 0 s = Some (np_transpose (rollP k 0 (length s)) s).
+Proof.
+  intro Hk. unfold np_rollaxis. rewrite (norm_axis_nat _ _ Hk). unfold roll_start.
+  destruct (Z.ltb_spec 0 0) as [L|L]; [lia|].
+  destruct (Z.leb_spec 0 0) as [L1|L1]; [|lia].
+  destruct (Z.leb_spec 0 (Z.of_nat (length s))) as [L2|L2]; [|lia]. reflexivity.
+Qed.
+
+Lemma np_rollaxis_back k s : k < length s ->
+  np_rollaxis 0 (Z.of_nat (S k)) s = Some (np_transpose (rollP 0 k (length s)) s).
+Proof.
+  intro Hk. unfold np_rollaxis.
+  assert (H0 : norm_axis (length s) 0 = Some 0) by (apply (norm_axis_nat (length s) 0); lia).
+  rewrite H0. unfold roll_start.
+  destruct (Z.ltb_spec (Z.of_nat (S k)) 0) as [L|L]; [lia|].
+  destruct (Z.leb_spec 0 (Z.of_nat (S k))) as [L1|L1]; [|lia].
+  destruct (Z.leb_spec (Z.of_nat (S k)) (Z.of_nat (length s))) as [L2|L2]; [|lia].
+  cbn [andb]. rewrite Nat2Z.id.
+  destruct (Nat.ltb_spec 0 (S k)) as [L3|L3]; [|lia]. cbn [Nat.sub]. rewrite Nat.sub_0_r. reflexivity.
+Qed.
+
+(* transpose_numer twice (item axes), same permutation lemma on the numerator part *)
+Theorem transpose_numer_twice a b (x : q0) r n d :
+  a < length (qnumer x) -> b < length (qnumer x) ->
+  length r = length (qlead x) -> length n = length (qnumer x) ->
+  let p := swapP a b (length (qnumer x)) in
+  let m1 := np_transpose p (qnumer x) in
+  let m2 := np_transpose p (im_out m1) in
+  im_out m2 = qnumer x /\
+  qval (numer_map m2 (numer_map m1 x)) (r ++ n ++ d) = qval x (r ++ n ++ d).
+Proof.
+  intros Ha Hb Hr Hn p m1 m2.
+  assert (Hp := swapP_perm a b _ Ha Hb). fold p in Hp.
+  assert (Hinv : inv p = p) by (apply swapP_inv; assumption).
+  assert (Hpl : length p = length (qnumer x)) by (destruct Hp as (_ & L & _); exact L).
+  assert (Hout : im_out m2 = qnumer x).
+  { unfold m2, m1. cbn [im_out np_transpose]. rewrite <- Hinv at 1.
+    apply (transpose_roundtrip2 p _ _ Hp eq_refl). }
+  split; [exact Hout|].
+  destruct (numer_map_relabels m2 (numer_map m1 x)) as (_ & _ & _ & Hv2 & _).
+  destruct (numer_map_relabels m1 x) as (Hl1 & _ & _ & Hv1 & _).
+  rewrite Hv2; [| rewrite Hl1; exact Hr | rewrite Hout; exact Hn].
+  rewrite Hv1; [| exact Hr |].
+  - unfold m2, m1. cbn [im_src np_transpose]. rewrite Hinv.
+    rewrite <- Hinv at 1. rewrite (transpose_roundtrip2 p _ n Hp Hn). reflexivity.
+  - unfold m2, m1. cbn [im_src im_out np_transpose]. rewrite !gather_length, inv_length. reflexivity.
+Qed.
+
+(* ------------------------------------------------------------------ *)
+(* as_diagonal, stack, from_scalars / to_scalars                       *)
+(* ------------------------------------------------------------------ *)
+Lemma nth_app_exact {A} (r t : list A) d : nth (length r) (r ++ t) d = nth 0 t d.
+Proof. rewrite app_nth2 by lia. rewrite Nat.sub_diag. reflexivity. Qed.
+Lemma nth_app_exact_S {A} (r t : list A) d : nth (S (length r)) (r ++ t) d = nth 1 t d.
+Proof. rewrite app_nth2 by lia. replace (S (length r) - length r) with 1 by lia. reflexivity. Qed.
+Lemma skipn_SS_app {A} (r : list A) x y t : skipn (S (S (length r))) (r ++ x :: y :: t) = t.
+Proof. induction r as [|z r IH]; simpl; [reflexivity | exact IH]. Qed.
+Lemma skipn_S_app {A} (r : list A) x t : skipn (S (length r)) (r ++ x :: t) = t.
+Proof. induction r as [|z r IH]; simpl; [reflexivity | exact IH]. Qed.
+
+(* diagonal elements are the source elements, everything else is a fresh zero;
+   leading axes, denominator axes and mask untouched *)
+Theorem diag_spec a r i j d : length r = length (qlead a) ->
+  qval (diag_map a) (r ++ i :: j :: d) = (if Nat.eqb i j then qval a (r ++ i :: d) else 0%Z) /\
+  qlead (diag_map a) = qlead a /\ (forall k, qmask (diag_map a) k = qmask a k).
+Proof.
+  intro Hr. unfold diag_map; cbn [qval qlead qmask]. rewrite <- Hr.
+  rewrite nth_app_exact, nth_app_exact_S, firstn_app_exact, skipn_SS_app. cbn [nth].
+  repeat split; reflexivity.
+Qed.
+
+Theorem stack_spec s l nu de k i :
+  qval (stack_q0 s l nu de) (k :: i) = qval (nth_q0 k l) i /\
+  qmask (stack_q0 s l nu de) (k :: i) = qmask (nth_q0 k l) i /\
+  qlead (stack_q0 s l nu de) = length l :: s.
+Proof. repeat split; reflexivity. Qed.
+
+Theorem bcast_spec s a r j : length r = length s ->
+  qval (bcast_q0 s a) (r ++ j) = qval a (bproj (qlead a) r ++ j) /\
+  qmask (bcast_q0 s a) r = qmask a (bproj (qlead a) r).
+Proof.
+  intro Hr. unfold bcast_q0; cbn [qval qmask]. rewrite <- Hr, firstn_app_exact, skipn_app_exact.
+  split; reflexivity.
+Qed.
+
+Theorem fromsc_spec s l de r k d : length r = length s ->
+  qval (fromsc_q0 s l de) (r ++ k :: d) = qval (nth_q0 k l) (r ++ d) /\
+  qmask (fromsc_q0 s l de) r = existsb (fun a => qmask a r) l.
+Proof.
+  intro Hr. unfold fromsc_q0; cbn [qval qmask]. rewrite <- Hr.
+  rewrite nth_app_exact, firstn_app_exact, skipn_S_app. cbn [nth]. split; reflexivity.
+Qed.
+
+(* from_scalars of the to_scalars components gives every element back *)
+Theorem from_to_scalars a n r k d : qnumer a = [n] -> k < n -> length r = length (qlead a) ->
+  qval (fromsc_q0 (qlead a) (map (fun j => numer_map (ix_extract 0 j [n]) a) (seq 0 n)) (qdenom a))
+       (r ++ k :: d) = qval a (r ++ k :: d).
+Proof.
+  intros Hn Hk Hr.
+  destruct (fromsc_spec (qlead a) (map (fun j => numer_map (ix_extract 0 j [n]) a) (seq 0 n))
+                        (qdenom a) r k d Hr) as [Hv _].
+  rewrite Hv. unfold nth_q0.
+  rewrite (nth_map_lt _ (seq 0 n) k 0) by (rewrite seq_length; exact Hk).
+  rewrite seq_nth by exact Hk. cbn [Nat.add].
+  destruct (numer_map_relabels (ix_extract 0 k [n]) a) as (_ & _ & _ & Hv1 & _).
+  specialize (Hv1 r [] d Hr eq_refl). cbn [app] in Hv1. rewrite Hv1. reflexivity.
+Qed.
